@@ -1,2 +1,2 @@
 (* C16: the proofs about Model/ListOps.v, split by topic. *)
-From Vy Require Export Proofs.C16Basic Proofs.C16Sort Proofs.C16Shape Proofs.C16Enum Proofs.C16Examples.
+From Vy Require Export Proofs.C16Basic Proofs.C16Sort Proofs.C16Shape Proofs.C16Enum Proofs.C16Diag Proofs.C16Examples.
